@@ -15,6 +15,7 @@ type varInfo struct {
 	name  string
 	ty    gtype
 	place *placeInfo // [seq] ty.k == kPlace
+	path  *spath     // [ext:T03] a receiver that is a path (trans_ext03.go), not a variable
 }
 
 // env: the variables in scope (declaration order) and the slice variables that may share their backing array with
@@ -70,6 +71,8 @@ type fctx struct {
 	tailParam string              // [seq] the parameter standing for a timed tail
 	nilErr    map[*ast.Ident]bool // [ext:T20] occurrences of nil that stand for the nil error
 	x07       *fstate07           // [ext:T07] parents, views (trans_ext07.go)
+	extra03   []string            // [ext:T03] extra parameters (memory read through unsafe.Pointer)
+	notes03   []string            // [ext:T03] comment lines for the generated definition
 	inRet     int                 // [BitsCode] > 0 while the operands of a `return` are translated (struct literals may then hold named slices)
 }
 
@@ -109,6 +112,9 @@ func (c *fctx) sliceKey(e ast.Expr, en *env) string {
 			}
 		}
 	case *ast.SelectorExpr:
+		if k := c.key03(x, en); k != "" { // [ext:T03] nested / promoted fields
+			return k
+		}
 		if id, ok := ast.Unparen(x.X).(*ast.Ident); ok {
 			if o := c.t.info.Uses[id]; o != nil {
 				if v := en.lookup(o); v != nil && v.ty.k == kStruct {
@@ -343,6 +349,9 @@ func (c *fctx) expr(e ast.Expr, en *env, k func(string) string) string {
 		if s, ok := c.seqSelector(x, en, k); ok { // [seq] h.f, s[i].f
 			return s
 		}
+		if s, ok := c.selector03(x, en, k); ok { // [ext:T03] b.Bitmap.set, promoted fields, (*T)(p).f
+			return s
+		}
 		v := c.structVar(x.X, en)
 		t.exprType(x)
 		return k(fmt.Sprintf("(%s_%s %s)", v.ty.st.name, v.ty.st.coqField(x.Sel.Name), v.name)) // [stable]
@@ -404,13 +413,18 @@ func (c *fctx) expr(e ast.Expr, en *env, k func(string) string) string {
 				})
 			})
 		})
-	case *ast.CompositeLit: // [ext:T08] []byte{a, b}; [BitsCode] S{f: e, …} of a translated struct
+	case *ast.CompositeLit: // [ext:T08] []byte{a, b}; [BitsCode] S{f: e, …} of a translated struct; [ext:T03] the same under TransSpec.Ext03
 		if tv, ok := t.info.Types[x]; ok && tv.Type != nil {
 			if _, isStruct := tv.Type.Underlying().(*types.Struct); isStruct {
+				if t.spec.Ext03 { // [ext:T03] nested Records, dead-source aliasing rule
+					return c.compLit03(x, en, k)
+				}
 				return c.structLit(x, en, k)
 			}
 		}
 		return c.complit08(x, en, k)
+	case *ast.StarExpr: // [ext:T03] *(*[N]uintK)(unsafe.Pointer(&s[i]))
+		return c.unsafe03(x, en, k)
 	case *ast.CallExpr:
 		return c.call(x, en, func(vs []string) string {
 			if len(vs) != 1 {
@@ -586,7 +600,7 @@ func (c *fctx) call(x *ast.CallExpr, en *env, k func([]string) string) string {
 		if !((to.k == kInt || to.k == kUint) && (from.k == kInt || from.k == kUint)) && !(to.k == from.k && to.k != kStruct) {
 			t.fail(x, "conversion from %s to %s", t.info.Types[x.Args[0]].Type, t.info.Types[x].Type)
 		}
-		if to.k == kInt && to.bits == 0 && from.k == kUint && from.bits == 64 && !c.below63(x.Args[0]) {
+		if to.k == kInt && to.bits == 0 && from.k == kUint && from.bits == 64 && !c.below63(x.Args[0]) && !c.fitsInt03(x.Args[0]) { // [ext:T03] int(u >> c), int(u & c)
 			t.fail(x, "conversion of a 64-bit unsigned value to a signed integer (overflow is not modelled)")
 		}
 		return c.expr(x.Args[0], en, func(a string) string {
@@ -688,6 +702,7 @@ func (c *fctx) call(x *ast.CallExpr, en *env, k func([]string) string) string {
 	if t.seq.timedTail[fi.goName] { // [seq]
 		t.fail(x, "call of %s, which is translated with a timed tail", fi.goName)
 	}
+	c.callable03(fi, x) // [ext:T03]
 	fuel := ""
 	if fi.loops {
 		fuel = " fuel"
@@ -701,11 +716,11 @@ func (c *fctx) call(x *ast.CallExpr, en *env, k func([]string) string) string {
 		if fi.recvT.k != kStruct {
 			recvArg = true
 		} else {
-			rv = c.structVar(recv, en)
+			rv = c.recv03(x, recv, fi, en) // [ext:T03] structVar(recv, en), or a path
 			if fi.writes {
-				c.checkNoLivePlace(en, x, func(k string) bool { return strings.HasPrefix(k, rv.name+".") }, "call of "+fi.goName) // [seq]
+				c.checkNoLivePlace(en, x, func(k string) bool { return strings.HasPrefix(k, recvKey03(rv)) }, "call of "+fi.goName) // [seq]
 				for key := range en.shared {
-					if strings.HasPrefix(key, rv.name+".") {
+					if strings.HasPrefix(key, recvKey03(rv)) { // [ext:T03]
 						t.fail(x, "call of %s, which writes its receiver, while %s may share its array with another variable", fi.goName, key)
 					}
 				}
@@ -744,7 +759,7 @@ func (c *fctx) call(x *ast.CallExpr, en *env, k func([]string) string) string {
 		}
 		var parts []string
 		if rv != nil && fi.writes {
-			parts = append(parts, rv.name)
+			parts = append(parts, c.recvPat03(rv)) // [ext:T03] rv.name, or a temporary for a path receiver
 		}
 		for _, g := range t.ordered20(fi.gwrites) {
 			parts = append(parts, c.globalName20(g, en, x))
@@ -761,7 +776,7 @@ func (c *fctx) call(x *ast.CallExpr, en *env, k func([]string) string) string {
 		if strings.HasPrefix(pat, "(") {
 			pat = "'" + pat
 		}
-		return fmt.Sprintf("do %s <- %s;;\n%s", pat, app, wb07.code(func() string { return k(rs) })) // [ext:T07] wb07.code
+		return fmt.Sprintf("do %s <- %s;;\n%s%s", pat, app, recvBack03(rv, fi), wb07.code(func() string { return k(rs) })) // [ext:T03] recvBack03: "" unless a path receiver was written; [ext:T07] wb07.code
 	}
 	if len(fi.outs07) > 0 && !recvArg { // [ext:T07]
 		return c.argsOut07(fi, x, recv, en, &wb07, func(vs []string) string { return emit("", vs) })
@@ -792,7 +807,7 @@ func (c *fctx) copyCall(x *ast.CallExpr, en *env, k func([]string) string) strin
 	}
 	key := c.sliceKey(dst, en)
 	c.checkWritable(key, en, x)
-	if sk, ok := c.aliasSource(x.Args[1], en); ok && sk == key {
+	if sk, ok := c.aliasSource(x.Args[1], en); ok && sk == key && !t.spec.Ext03 { // [ext:T03] copy is a memmove: the source VALUE is taken first, which is what the list model does
 		t.fail(x, "copy between overlapping parts of the same slice")
 	}
 	n := c.fresh("n")
@@ -853,6 +868,9 @@ func (c *fctx) store(lhs ast.Expr, val string, en *env, k func() string) string 
 		sel := t.info.Selections[x]
 		if sel == nil || sel.Kind() != types.FieldVal {
 			t.fail(x, "assignment to selector %s", x.Sel.Name)
+		}
+		if s, ok := c.store03(x, val, en, k); ok { // [ext:T03]
+			return s
 		}
 		v := c.structVar(x.X, en)
 		return fmt.Sprintf("let %s := set_%s_%s %s %s in\n%s", v.name, v.ty.st.name, v.ty.st.coqField(x.Sel.Name), v.name, val, k()) // [stable]
